@@ -11,14 +11,19 @@ EXPLANATION = (
     "both operands and compares x.u < y.u with a strict `<`, left operand first; echs_instant_le_p mirrors it; echs_event_lt_p compares "
     ".from through it in argument order. Template bindings: in instant.c the sort template is instantiated with (echs_instant_t, "
     "echs_instant_lt_p), in event.c with (echs_event_t, echs_event_lt_p), and every comparison inside the template goes through that "
-    "binding; echs_instant_sort/echs_event_sort pass (array, count) through. R08.3 (sentinels wrap to 0 so all-day sorts before timed).")
-NOT_DECIDED = "WikiSort itself: that the result is a permutation, sorted, and stable on every block-merge path (value-level over arrays of every length)"
+    "binding; echs_instant_sort/echs_event_sort pass (array, count) through. R20.3: every binary search of the template has the polarity "
+    "(First = in front of equals, Last = behind) that stability and progress need, per function and search family, in both instantiations. "
+    "R20.4: a block_size-long BlockSwap/memcpy out of the rolling A blocks is reached only with Range_length(blockA) > 0 on every path "
+    "(one-fact must-analysis; shifting start and end by the same amount keeps the fact). R08.3 (sentinels wrap to 0 so all-day sorts before timed).")
+NOT_DECIDED = ("WikiSort itself: that the result is a permutation, sorted, and stable on every block-merge path (value-level over arrays of "
+               "every length); only search polarity and the whole-block guard are decided inside the algorithm")
 TRUSTED = ["clang 14 parser/CFG builder", "echse-facts extractor", "python rule engines in /verif/sa"]
 LEVEL_TEXT = ("Static verdict on narrow necessary clauses of C20 only: the comparison the sort is instantiated with is a strict, symmetric "
               "order on the chronological key with the all-day-first wrap, and both instantiations bind the right element type and comparator. "
               "The sorting algorithm itself (permutation, order, stability) is NOT decided.")
 LEVEL_NOTE = "Trusted: clang 14 front end/CFG, extractor, rule engines."
-TECHNIQUE = "static analysis: symmetry/strictness of the comparator's expression tree, template binding agreement per translation unit"
+TECHNIQUE = ("static analysis: symmetry/strictness of the comparator's expression tree, template binding agreement per translation unit, "
+             "search-polarity table per template function, one-fact must-analysis guarding whole-block accesses")
 
 
 def _incs(f, param):
@@ -41,7 +46,12 @@ def r20_1(prog, rep):
         if i0 == i1 and {x[0] for x in i0} == {"H", "ms"}:
             rep.ok(rid, key, f.loc(), "both operands get %s" % i0)
         else:
-            rep.fail(rid, key, f.loc(), "operands are normalised differently (%s vs %s): the order is not symmetric; all-day/all-second sentinels compare wrongly" % (i0, i1))
+            if i0 != i1:
+                why = "operands are normalised differently (%s vs %s): the order is not symmetric" % (sorted(set(i0)), sorted(set(i1)))
+            else:
+                why = ("the wrap-around increments cover %s, not {H, ms}: the all-day/all-second sentinels (all bits set) are not wrapped to the front "
+                       "of their day/second while every real value moves up by one, so they share a slot with or sort behind timed values" % (sorted({x[0] for x in i0}),))
+            rep.fail(rid, key, f.loc(), why + "; all-day/all-second sentinels compare wrongly")
         ret = [f.cfg.resolve(x["e"]) for b, i, x, line in f.cfg.all_elems() if isinstance(x, dict) and x.get("k") == "ret"]
         if len(ret) != 1:
             raise AnalysisBroken("%s has %d returns" % (name, len(ret)))
@@ -118,11 +128,216 @@ def r20_2(prog, rep):
             rep.fail(rid, "%s/%s" % (unit, api), f.loc(), "%s calls WikiSort with %s" % (api, args))
 
 
+def _template_fns(prog, unit):
+    doc = prog.units.get(unit)
+    if doc is None:
+        raise AnalysisBroken("unit %s not extracted" % unit)
+    return {fr["name"]: Function(fr, unit) for fr in doc["functions"] if fr["file"] == "wikisort.c" and fr.get("cfg")}
+
+
+# polarity of the binary searches, confirmed by reading (First = before equal elements, Last = behind them):
+#   wrappers     Find<P><Dir> narrows a window and must finish with Binary<P>
+#   insertion    an element coming from the left of a range goes in front of its equals (First), from the right behind them (Last):
+#                InsertionSortBinary (from the right: Last), MergeInPlace A-head into B (First), WikiSort min A block into lastB (First),
+#                redistribution of the internal buffers (to the right: FindFirstForward, to the left: FindLastBackward)
+#   run skipping MergeInPlace skips A's leading run with Last (First makes no progress: endless loop); the unique-value counts and pull-outs
+#                in WikiSort take the last of a run going forward and the first going backward
+POLARITY = {
+    "FindFirstForward": {"Binary": {"First": 1}},
+    "FindLastForward": {"Binary": {"Last": 1}},
+    "FindFirstBackward": {"Binary": {"First": 1}},
+    "FindLastBackward": {"Binary": {"Last": 1}},
+    "InsertionSortBinary": {"Binary": {"Last": 1}},
+    "MergeInPlace": {"Binary": {"First": 1, "Last": 1}},
+    "WikiSort": {"Binary": {"First": 1}, "Forward": {"Last": 2, "First": 1}, "Backward": {"First": 2, "Last": 1}},
+}
+
+
+def _search_call(fn):
+    import re
+    m = re.fullmatch(r"Binary(First|Last)", fn or "")
+    if m:
+        return "Binary", m.group(1)
+    m = re.fullmatch(r"Find(First|Last)(Forward|Backward)", fn or "")
+    if m:
+        return m.group(2), m.group(1)
+    return None
+
+
+def r20_3(prog, rep):
+    """Stability polarity of every binary search in the sort template (both instantiations)."""
+    rid = "R20.3"
+    for unit in ("instant.c", "event.c"):
+        fns = _template_fns(prog, unit)
+        for name, want in POLARITY.items():
+            f = fns.get(name)
+            if f is None:
+                rep.broken_("rule=%s %s: template function %s not found" % (rid, unit, name))
+                continue
+            got = {}
+            sites = []
+            for b, i, c, line in f.all_calls():
+                sc = _search_call(c.get("fn"))
+                if sc:
+                    got.setdefault(sc[0], {}).setdefault(sc[1], 0)
+                    got[sc[0]][sc[1]] += 1
+                    sites.append((line, c))
+            for fam in sorted(set(want) | set(got)):
+                key = "%s/%s/%s" % (unit, name, fam)
+                w, g = want.get(fam, {}), got.get(fam, {})
+                if sum(w.values()) != sum(g.values()):
+                    # a search was added or removed: the table below no longer describes this function
+                    rep.broken_("rule=%s %s: %d %s searches where %d were confirmed by reading; re-confirm the polarity table" % (
+                        rid, key, sum(g.values()), fam, sum(w.values())))
+                elif w == g:
+                    rep.ok(rid, key, f.loc(), "%s searches: %s as confirmed" % (fam, ", ".join("%d x %s" % (v, k) for k, v in sorted(g.items()))))
+                else:
+                    rep.fail(rid, key, f.loc(), "the %s searches of %s are %s, confirmed stable polarity is %s: an element is placed on the wrong side of its "
+                             "equals (equal elements change their relative order) or a run is skipped from the wrong end" % (
+                                 fam, name, dict(sorted(g.items())), dict(sorted(w.items()))))
+        # MergeInPlace: A's head is searched in the other range with First (stable: A comes from the left), in A itself with Last
+        f = fns.get("MergeInPlace")
+        if f is not None:
+            pa, pb = f.params[1]["n"], f.params[2]["n"]
+            for b, i, c, line in f.all_calls():
+                sc = _search_call(c.get("fn"))
+                if not sc or sc[0] != "Binary":
+                    continue
+                val, rng = show(f.cfg.resolve(c["a"][1])), lv(f.cfg.resolve(c["a"][2]))
+                key = "%s/MergeInPlace/search(%s in %s)" % (unit, val, rng)
+                if val != "array[%s.start]" % pa or rng not in (pa, pb):
+                    rep.broken_("rule=%s %s: unrecognised search" % (rid, key))
+                    continue
+                need = "First" if rng == pb else "Last"
+                if sc[1] == need:
+                    rep.ok(rid, key, f.loc(line), "Binary%s" % need)
+                else:
+                    rep.fail(rid, key, f.loc(line), "Binary%s used where Binary%s is needed: %s" % (sc[1], need,
+                             "A's items are rotated behind the equal items of B, equal elements swap their relative order" if need == "First"
+                             else "A's leading run is not skipped, the merge makes no progress"))
+
+
+def r20_4(prog, rep):
+    """A whole block is swapped/copied out of the rolling A blocks only while there is one: every block_size-long access that starts at
+    R.start (R a Range local) is reached only with Range_length(R) > 0 established and not invalidated (shifting start and end by the
+    same amount keeps it)."""
+    rid = "R20.4"
+    for unit in ("instant.c", "event.c"):
+        f = _template_fns(prog, unit).get("WikiSort")
+        if f is None:
+            rep.broken_("rule=%s %s: WikiSort not found" % (rid, unit))
+            continue
+        cfg = f.cfg
+        # the sites
+        sites = []
+        for b, i, x, line in cfg.all_elems():
+            if not isinstance(x, dict):
+                continue
+            for c in calls(x):
+                if c.get("fn") not in ("BlockSwap", "memcpy"):
+                    continue
+                args = [cfg.resolve(a) for a in c["a"]]
+                if not any("block_size" in show(a) for a in args[-1:]):
+                    continue
+                for a in args[:-1]:
+                    for n in walk(a):
+                        if n.get("k") == "mem" and n.get("f") == "start" and lv(n) and lv(n).count(".") == 1 and show(strip_casts(a)) in (lv(n), "&array[%s]" % lv(n)):
+                            r = lv(n).split(".")[0]
+                            if r.startswith("block"):
+                                sites.append((b, i, line, r, c.get("fn")))
+        if len(sites) < 4:
+            rep.broken_("rule=%s %s: %d block accesses found, 4 confirmed by reading" % (rid, unit, len(sites)))
+            continue
+        ranges = sorted({s[3] for s in sites})
+        for r in ranges:
+            st = _nonempty_states(cfg, r)
+            for b, i, line, rr, fn in sites:
+                if rr != r:
+                    continue
+                key = "%s/WikiSort/%s(%s.start, block_size)@%d" % (unit, fn, r, sum(1 for s in sites if s[3] == r and (s[2], s[0], s[1]) <= (line, b, i)))
+                v = st.get((b, i))
+                if v == "N":
+                    rep.ok(rid, key, f.loc(line), "Range_length(%s) > 0 holds on every path to the access" % r)
+                else:
+                    rep.fail(rid, key, f.loc(line), "%s() moves a block_size-long block starting at %s.start on a path where Range_length(%s) > 0 is not established: "
+                             "with a short A half (few distinct values, >= 1024 elements) there is no whole A block and the access runs past the array" % (fn, r, r))
+
+
+def _nonempty_states(cfg, r):
+    """Forward must-analysis of one fact, `Range r is non-empty`: 'N' holds, ('S', e) start shifted by e (end not yet), 'U' unknown."""
+    def meet(a, b):
+        return a if a == b else "U"
+
+    def transfer(b, st, rec=None):
+        for i, e in enumerate(cfg.blocks[b].elems):
+            if rec is not None:
+                rec[(b, i)] = st
+            x = e["x"]
+            if not isinstance(x, dict):
+                continue
+            for l, kind, node in writes(x):
+                t = lv(l)
+                if t == r + ".start":
+                    if kind == "compound" and node.get("op") == "+=" and st == "N":
+                        st = ("S", show(cfg.resolve(node["r"])))
+                    else:
+                        st = "U"
+                elif t == r + ".end":
+                    if kind == "compound" and node.get("op") == "+=" and (st == "N" or (isinstance(st, tuple) and st[1] == show(cfg.resolve(node["r"])))):
+                        st = "N"
+                    else:
+                        st = "U"
+                elif t == r:
+                    st = "U"
+                elif isinstance(st, tuple) and t and t.split(".")[0].split("[")[0] in st[1]:
+                    st = "U"
+        return st
+
+    def edge_gen(c, truth):
+        cs = strip(c)
+        if cs.get("k") == "bin" and cs["op"] in (">", "==", "!="):
+            l, rr_ = strip_casts(cs["l"]), strip_casts(cs["r"])
+            if l.get("k") == "call" and l.get("fn") == "Range_length" and lv(cfg.resolve(l["a"][0])) == r and int_value(rr_) == 0:
+                if (cs["op"] in (">", "!=")) == truth:
+                    return "N"
+        return None
+
+    IN = {b: None for b in cfg.blocks}
+    IN[cfg.entry] = "U"
+    work = [cfg.entry]
+    while work:
+        b = work.pop()
+        out = transfer(b, IN[b])
+        blk = cfg.blocks[b]
+        c = cfg.cond(b)
+        for si, s in enumerate(blk.succs):
+            if s is None or si in blk.dead:
+                continue
+            o = out
+            if c is not None and len(blk.succs) == 2:
+                g = edge_gen(c, si == 0)
+                if g:
+                    o = g
+            new = o if IN[s] is None else meet(IN[s], o)
+            if IN[s] is None or new != IN[s]:
+                IN[s] = new
+                work.append(s)
+    rec = {}
+    for b in cfg.blocks:
+        if IN[b] is not None:
+            transfer(b, IN[b], rec)
+    return rec
+
+
 def run(prog, rep, tier, snap):
     rep.rule("R20.1", "comparator is a strict order applied symmetrically", 5)
     r20_1(prog, rep)
     rep.rule("R20.2", "template bindings and entry points", 6)
     r20_2(prog, rep)
+    rep.rule("R20.3", "stability polarity of the binary searches in the sort template", 20)
+    r20_3(prog, rep)
+    rep.rule("R20.4", "whole-block accesses only while a whole A block exists", 8)
+    r20_4(prog, rep)
     rep.rule("R08.3", "sentinels wrap to zero: all-day sorts before timed (shared with C08)", 4)
     c08.r08_3(prog, rep)
 READY = True
